@@ -107,7 +107,7 @@ pub fn dump_codeblock(cb: &crate::vm::CodeBlock) -> CodeBlockDump {
     }
 }
 #[derive(Debug, Clone, Copy)]
-pub struct StepInfo { pub codeblock_id: u64, pub pc: u32, pub env_depth: u32, pub env_fp: u32, pub binding_stack_len: u32, pub stack_above_registers: i64 }
+pub struct StepInfo { pub codeblock_id: u64, pub pc: u32, pub env_depth: u32, pub env_fp: u32, pub binding_stack_len: u32, pub stack_above_registers: i64, pub frames: u32, pub iterators: u32 }
 pub type StepObserver = Box<dyn Fn(&StepInfo, &crate::vm::CodeBlock)>;
 thread_local! { static STEP_OBSERVER: std::cell::RefCell<Option<StepObserver>> = const { std::cell::RefCell::new(None) }; static STEP_ON: Cell<bool> = const { Cell::new(false) }; }
 pub fn set_step_observer(f: Option<StepObserver>) { STEP_ON.with(|c| c.set(f.is_some())); STEP_OBSERVER.with(|c| *c.borrow_mut() = f); }
@@ -115,7 +115,8 @@ pub(crate) fn observe_step(context: &Context) {
     if !STEP_ON.with(Cell::get) { return; }
     let vm = &context.vm; let f = vm.frame();
     let info = StepInfo { codeblock_id: f.code_block.debug_id, pc: f.pc, env_depth: f.environments.len() as u32, env_fp: f.env_fp, binding_stack_len: f.binding_stack.len() as u32,
-        stack_above_registers: vm.stack.verif_len() as i64 - i64::from(f.rp) - i64::from(f.code_block.register_count) };
+        stack_above_registers: vm.stack.verif_len() as i64 - i64::from(f.rp) - i64::from(f.code_block.register_count),
+        frames: vm.frames.len() as u32, iterators: f.iterators.len() as u32 };
     STEP_OBSERVER.with(|c| { if let Some(o) = &*c.borrow() { o(&info, &f.code_block); } });
 }
 
